@@ -317,7 +317,9 @@ func (cx *Ctx) classifyMapRange(f *ssa.Function, rg *ssa.Range) *mapRange {
 	_ = ifInstr
 	bodyEntry := hb.Succs[0]
 	exit := hb.Succs[1]
-	inBody := func(b *ssa.BasicBlock) bool { return bodyEntry.Dominates(b) && b != exit && !exit.Dominates(b) || b == bodyEntry }
+	inBody := func(b *ssa.BasicBlock) bool {
+		return bodyEntry.Dominates(b) && b != exit && !exit.Dominates(b) || b == bodyEntry
+	}
 	iterVals := map[ssa.Value]bool{}
 	for _, r := range *next.Referrers() {
 		if ex, ok := r.(*ssa.Extract); ok && ex.Index >= 1 {
@@ -537,9 +539,28 @@ func isZeroConst(c *ssa.Const) bool {
 	return s == "0" || s == "false" || s == `""`
 }
 
+var pkgShort = map[string]string{
+	"github.com/cosmos/cosmos-sdk/types":        "sdk",
+	"cosmossdk.io/math":                         "math",
+	"cosmossdk.io/x/nft/keeper":                 "sdknft",
+	"cosmossdk.io/errors":                       "errorsmod",
+	"github.com/cosmos/cosmos-sdk/types/errors": "sdkerrors",
+	"github.com/cosmos/cosmos-sdk/codec":        "codec",
+	"github.com/cosmos/cosmos-sdk/codec/types":  "codectypes",
+	"cosmossdk.io/store/types":                  "storetypes",
+}
+
 func callName(ci ssa.CallInstruction) string {
 	pkg, name := calleeName(ci.Common())
-	pkg = strings.TrimPrefix(pkg, modPrefix+"modules/")
+	if s, ok := pkgShort[pkg]; ok {
+		return s + "." + name
+	}
+	if strings.HasPrefix(pkg, modPrefix) {
+		pkg = strings.TrimPrefix(pkg, modPrefix+"modules/")
+		pkg = strings.TrimPrefix(pkg, modPrefix)
+	} else if i := strings.LastIndex(pkg, "/"); i >= 0 {
+		pkg = pkg[i+1:]
+	}
 	if pkg == "" {
 		return name
 	}
